@@ -104,6 +104,12 @@ def wrap(e, ty):
     return e
 
 
+def strip(n):
+    while n.get("kind") in ("ImplicitCastExpr", "ParenExpr", "CStyleCastExpr"):
+        n = n["inner"][0]
+    return n
+
+
 def cquot(a, b):
     q = abs(a) // abs(b)
     return q if (a >= 0) == (b >= 0) else -q
@@ -277,6 +283,8 @@ class Fn:
                 return lit(8 * cnt)
             if el.replace("const ", "") in WIDTH:
                 return lit(WIDTH[el.replace("const ", "")][0] // 8 * cnt)
+            if el.replace("const ", "") in ("uint8_t", "int8_t"):
+                return lit(cnt)
             raise Unsupported("sizeof " + t)
         if k == "ConditionalOperator":
             c, a, b = n["inner"]
@@ -678,11 +686,14 @@ class Fn:
                 self.ptrs[pn] = (self.ptrs[pn][0], self.ptrs[pn][1] + (v if n["opcode"] == "+=" else -v))
                 return self.S(rest, k)
             rhs = self.E(n["inner"][1])        # right operand first: `*p++ = *q++` is not in the subset
+            cur0 = None
+            if n["opcode"] != "=" and strip(n["inner"][0]).get("kind") == "ArraySubscriptExpr":
+                cur0 = self.E(n["inner"][0])   # the old value, before the element counts as written
             tgt = self.target(n["inner"][0])
             ty = ctype(n["inner"][0])
             if n["opcode"] != "=":
                 op = n["opcode"][:-1]
-                cur = self.read(tgt)
+                cur = cur0 if cur0 is not None and tgt[1] is None else self.read(tgt)
                 crt = n.get("computeResultType", {})
                 cty = (crt.get("desugaredQualType") or crt.get("qualType") or ty).replace("const ", "")
                 fake = {"+": "(%s + %s)", "-": "(%s - %s)", "*": "(%s * %s)", "&": "(Z.land %s %s)", "|": "(Z.lor %s %s)",
@@ -1126,6 +1137,811 @@ TARGETS = [
      ["data_birthday", "data_features", "data_secret", "data_checksum"], [], "Z * Z * list Z * Z"),
 ]
 
+
+# ====================================================================== the API layer (polyseed.c)
+# Functions that call the injected dependencies.  On top of the fragment above:
+#   * the calls made through `polyseed_deps` are *events* appended to a hidden variable `ev`
+#     (allocation with its answer, free, wipes with object and size, clock, random bytes, KDF, NFC);
+#     the environment's answers (pointer returned by alloc, clock value, random bytes) are parameters;
+#   * `goto label` continues with the statements after the (top-level) label;
+#   * a `polyseed_data*` is an integer (0 = NULL) plus one variable per field of the block it points to;
+#   * calls of translated functions with pointer arguments: the callee's Gallina parameters are matched
+#     to the caller's variables through the C parameter names (`data` <-> `seed`: data_birthday <-> seed_birthday).
+SIGS = {}          # C function -> dict(extra, globals, params, outs, option, cparams, void)
+STRUCT_SIZE = {"polyseed_data": "sizeof_data", "gf_poly": "sizeof_poly", "struct polyseed_data": "sizeof_data"}
+API_INLINE = {"polyseed_free": "polyseed.c", "store32": "polyseed.c"}
+
+
+def strip(n):
+    while n.get("kind") in ("ImplicitCastExpr", "ParenExpr", "CStyleCastExpr"):
+        n = n["inner"][0]
+    return n
+
+
+class ApiFn(Fn):
+    def __init__(self, *a):
+        super().__init__(*a)
+        self.hoisted = {}
+        self.env_used = []
+        self.top = None
+        self.top_k = None
+        self.struct_ptrs = set()
+        self.uses_ev = False
+        self.tmpn = 0
+        self.rename = {}
+        self.new_ids = []
+        self.char_arrays = set()
+        self.idx_mode = False
+        self.idx_ptrs = {}
+        self.idx_arrays = {}
+        self.idx_spec = {}
+
+    # ------------------------------------------------------------ helpers
+    def deps_member(self, n):
+        """name of the polyseed_deps entry called by CallExpr n, or None"""
+        n = strip(n)
+        if n.get("kind") != "CallExpr":
+            return None
+        callee = strip(n["inner"][0])
+        if callee.get("kind") != "MemberExpr":
+            return None
+        base = strip(callee["inner"][0])
+        if base.get("kind") == "DeclRefExpr" and base["referencedDecl"]["name"] == "polyseed_deps":
+            return callee["name"]
+        return None
+
+    def env(self, name, ty):
+        if (name, ty) not in self.env_used:
+            self.env_used.append((name, ty))
+        return name
+
+    def event(self, e):
+        self.uses_ev = True
+        return "let ev : list cev := ev ++ [%s] in\n" % e
+
+    def snapshot(self):
+        return (dict(self.consts), {a: set(b) for a, b in self.elems.items()}, dict(self.ptrs), dict(self.arr_len))
+
+    def restore(self, s):
+        self.consts, self.elems, self.ptrs, self.arr_len = dict(s[0]), {a: set(b) for a, b in s[1].items()}, dict(s[2]), dict(s[3])
+
+    def lval_name(self, n):
+        if n["kind"] == "DeclRefExpr":
+            nm = n["referencedDecl"]["name"]
+            return self.rename.get(nm, nm)
+        return super().lval_name(n)
+
+    def scan_names(self, n, acc):
+        if n.get("kind") in ("VarDecl", "ParmVarDecl"):
+            acc.append((n["name"], n.get("type", {}).get("qualType", "")))
+        for c in n.get("inner", []):
+            if isinstance(c, dict):
+                self.scan_names(c, acc)
+        return acc
+
+    def has_return(self, n):
+        if n.get("kind") in ("ReturnStmt", "GotoStmt"):
+            return True
+        return any(isinstance(c, dict) and self.has_return(c) for c in n.get("inner", []))
+
+    def cur(self, name, is_list):
+        """current value of caller variable `name`"""
+        if is_list:
+            return self.array_value(name)
+        if name in self.consts:
+            return lit(self.consts[name])
+        m = re.match(r"(.*)_(\d+)$", name)
+        return name
+
+    def arg_base(self, a):
+        """the caller-side name an argument designates (object pointed to / array / scalar variable)"""
+        a = strip(a)
+        if a.get("kind") == "UnaryOperator" and a.get("opcode") == "&":
+            return self.lval_name(strip(a["inner"][0]))
+        return self.lval_name(a)
+
+    def sizeof_text(self, n):
+        tinfo = (n.get("argType") or (n["inner"][0].get("type") if n.get("inner") else {}) or {})
+        t = (tinfo.get("desugaredQualType") or tinfo.get("qualType", "")).replace("const ", "").strip()
+        t2 = tinfo.get("qualType", "").replace("const ", "").strip()
+        for cand in (t, t2):
+            if cand in STRUCT_SIZE:
+                return "(Z.of_N %s)" % STRUCT_SIZE[cand]
+        return None
+
+    # ------------------------------------------------------------ expressions
+    def E(self, n):
+        if n.get("id") in self.hoisted:
+            return self.hoisted[n["id"]]
+        k = n["kind"]
+        if k == "UnaryExprOrTypeTraitExpr" and n.get("name") == "sizeof":
+            t = self.sizeof_text(n)
+            if t is not None:
+                return t
+        if k == "CallExpr" and self.deps_member(n) is None:
+            f = self.lval_name(n["inner"][0])
+            if f in SIGS and f not in EXTERNS:
+                sig = SIGS[f]
+                if sig["outs"] or sig["option"]:
+                    raise Unsupported("call of %s inside an expression that is evaluated more than once" % f)
+                return "(%s %s)" % (f, " ".join(self.actuals(n, sig)))
+        if k == "UnaryOperator" and n.get("opcode") == "*":
+            p = strip(n["inner"][0])
+            if p.get("kind") == "DeclRefExpr" and self.lval_name(p) in self.idx_ptrs:
+                nm = self.lval_name(p)
+                return "(@nth Z (Z.to_nat %s) %s 0)" % (self.E(p), self.idx_ptrs[nm])
+        if k == "BinaryOperator" and n.get("opcode") == "-":
+            a_, b_ = strip(n["inner"][0]), strip(n["inner"][1])
+            if a_.get("kind") == "DeclRefExpr" and self.lval_name(a_) in self.idx_ptrs and \
+                    b_.get("kind") == "DeclRefExpr" and self.lval_name(b_) == self.idx_ptrs[self.lval_name(a_)]:
+                return self.E(a_)
+        if k == "MemberExpr":
+            # lang->compose and the like: a registered language is a registry position; its fields are functions of it
+            base = strip(n["inner"][0])
+            if "polyseed_lang" in base.get("type", {}).get("qualType", ""):
+                fn_ = "lang_" + n["name"]
+                self.env(fn_, "Z -> Z")
+                return "(%s %s)" % (fn_, self.E(base))
+        return super().E(n)
+
+    def char_ptr_expr(self, a):
+        x = strip(a)
+        if x.get("kind") == "MemberExpr" and "polyseed_lang" in strip(x["inner"][0]).get("type", {}).get("qualType", ""):
+            fn_ = "lang_" + x["name"]
+            self.env(fn_, "Z -> list Z")
+            return "(%s %s)" % (fn_, self.E(x["inner"][0]))
+        if x.get("kind") == "ArraySubscriptExpr":
+            b = strip(x["inner"][0])
+            if b.get("kind") == "MemberExpr" and "polyseed_lang" in strip(b["inner"][0]).get("type", {}).get("qualType", ""):
+                fn_ = "lang_" + b["name"]
+                self.env(fn_, "Z -> Z -> list Z")
+                return "(%s %s %s)" % (fn_, self.E(b["inner"][0]), self.E(x["inner"][1]))
+        return super().char_ptr_expr(a)
+
+    def target(self, n):
+        x = n
+        while x.get("kind") == "ParenExpr":
+            x = x["inner"][0]
+        if x.get("kind") == "UnaryOperator" and x.get("opcode") == "*":
+            p = strip(x["inner"][0])
+            if p.get("kind") == "DeclRefExpr" and self.lval_name(p) in self.idx_ptrs:
+                return self.idx_ptrs[self.lval_name(p)], self.E(p)
+        return super().target(n)
+
+    def lval_base(self, n):
+        x = n
+        while x.get("kind") == "ParenExpr":
+            x = x["inner"][0]
+        if x.get("kind") == "UnaryOperator" and x.get("opcode") == "*":
+            p = strip(x["inner"][0])
+            if p.get("kind") == "DeclRefExpr" and self.lval_name(p) in self.idx_ptrs:
+                return self.idx_ptrs[self.lval_name(p)]
+        return super().lval_base(n)
+
+    def assign(self, tgt, rhs):
+        name, idx = tgt
+        if idx is not None and name in self.char_arrays:
+            v = cval(rhs)
+            rhs = lit(v % 256) if v is not None else "(%s mod 256)" % rhs     # memory holds bytes
+        return super().assign(tgt, rhs)
+
+    def actuals(self, call, sig):
+        args = call["inner"][1:]
+        cps = sig["cparams"]
+        out = list(sig["extra"]) + list(sig["globals"])
+        for x in sig["extra"]:
+            self.need_extra(x, sig)
+        for (g, ty) in sig["params"]:
+            if g in sig["globals"]:
+                continue
+            out.append(self.actual_for(g, ty, cps, args, sig))
+        return out
+
+    def need_extra(self, x, sig):
+        ty = sig["extra_ty"][x]
+        if x == "fuel":
+            self.uses_fuel = True
+        elif x == "sgn":
+            self.needs_sgn = True
+        elif x.startswith("dep_"):
+            self.deps_used.add(x[4:])
+        elif (x, ty) not in self.exts_used:
+            self.exts_used.append((x, ty))
+
+    def caller_name(self, g, cps, args, sig=None):
+        if sig is not None and g in sig.get("implicit", {}):
+            via = sig["implicit"][g]
+            for (p, pty), a in zip(cps, args):
+                if p == via:
+                    return self.idx_ptrs[self.arg_base(a)], a, True
+        for (p, pty), a in zip(cps, args):
+            sa = strip(a)
+            if g == p + "_0" and sa.get("kind") == "UnaryOperator" and sa.get("opcode") == "&" and \
+                    strip(sa["inner"][0]).get("kind") == "DeclRefExpr":
+                return self.lval_name(strip(sa["inner"][0])), a, False
+        for (p, pty), a in zip(cps, args):
+            if g == p:
+                return self.arg_base(a), a, True
+            if g.startswith(p + "_"):
+                return self.arg_base(a) + g[len(p):], a, False
+        raise Unsupported("parameter %s of the callee is not matched by an argument" % g)
+
+    def actual_for(self, g, ty, cps, args, sig=None):
+        for (p, pty), a in zip(cps, args):
+            if sig is not None and g in sig.get("implicit", {}):
+                break
+            if g == p and not ty.startswith("list"):
+                sa = strip(a)
+                if pty.endswith("*") and not pty.endswith("char *"):
+                    # a pointer passed for its nullness only (lang_out)
+                    return self.E(a)
+                return self.E(a)
+        if not (sig is not None and g in sig.get("implicit", {})):
+            for (p, pty), a in zip(cps, args):
+                if g == p and ty == "list Z":
+                    cp = self.char_ptr_expr(a)
+                    if cp is not None:
+                        return cp
+        name, a, whole = self.caller_name(g, cps, args, sig)
+        if ty == "list (list Z)" and name in self.idx_arrays:
+            return "(map (cstr_at %s) %s)" % (self.cur(self.idx_arrays[name], True), self.cur(name, True))
+        if ty.startswith("list"):
+            if whole and not (sig is not None and g in sig.get("implicit", {})):
+                cp = self.char_ptr_expr(a)
+                if cp is not None:
+                    return cp
+            return self.cur(name, True) if name not in self.char_ptrs else name
+        return self.cur(name, False)
+
+    # ------------------------------------------------------------ hoisting of calls with effects / results
+    def hoist(self, n):
+        """text binding the calls inside expression n that cannot stay inside an expression"""
+        out = ""
+        if not isinstance(n, dict) or n.get("id") in self.hoisted:
+            return out
+        if n.get("kind") in ("CompoundStmt", "IfStmt", "ForStmt", "WhileStmt", "DeclStmt", "ReturnStmt", "LabelStmt"):
+            return out
+        for c in n.get("inner", []):
+            out += self.hoist(c)
+        if n.get("kind") != "CallExpr":
+            return out
+        dm = self.deps_member(n)
+        if dm == "alloc":
+            sz = self.E(n["inner"][1])
+            self.hoisted[n["id"]] = self.env("env_alloc", "Z")
+            self.new_ids.append(n["id"])
+            return out + self.event("CAlloc %s env_alloc" % sz)
+        if dm == "time":
+            self.hoisted[n["id"]] = self.env("env_time", "Z")
+            self.new_ids.append(n["id"])
+            return out + self.event("CTime")
+        if dm in ("u8_nfc", "u8_nfkd"):
+            src = self.arg_base(n["inner"][1])
+            dst = self.arg_base(n["inner"][2])
+            self.deps_used.add(dm)
+            self.tmpn += 1
+            r = "depret%d" % self.tmpn
+            self.hoisted[n["id"]] = r
+            self.new_ids.append(n["id"])
+            txt = self.event("C%s %s" % (dm[3:].capitalize(), self.cur(src, True)))
+            txt += "let '(%s, %s) := dep_%s %s in\n" % (dst, r, dm, self.cur(src, True))
+            self.elems[dst] = set()
+            return out + txt
+        if dm is not None:
+            return out
+        try:
+            f = self.lval_name(n["inner"][0])
+        except Unsupported:
+            return out
+        if f in API_INLINE or f in INLINE or f not in SIGS or f in EXTERNS:
+            return out
+        sig = SIGS[f]
+        if not sig["outs"] and not sig["option"] and f != "utf8_nfkd_lazy":
+            return out
+        acts = self.actuals(n, sig)
+        names = []
+        for g in sig["outs"]:
+            nm, _a, _w = self.caller_name(g, sig["cparams"], n["inner"][1:], sig)
+            names.append((nm, dict(sig["params"]).get(g, "Z")))
+            if g in sig.get("idx_out", {}):
+                basenm, _a2, _w2 = self.caller_name(sig["idx_out"][g], sig["cparams"], n["inner"][1:], sig)
+                self.idx_arrays[nm] = basenm
+        pat = [nm for nm, _ in names]
+        if not sig["void"]:
+            self.tmpn += 1
+            r = "callret%d" % self.tmpn
+            pat.append(r)
+            self.hoisted[n["id"]] = r
+        else:
+            self.hoisted[n["id"]] = "0"
+        self.new_ids.append(n["id"])
+        txt = ""
+        if f == "utf8_nfkd_lazy":
+            txt += self.event("CNfkdLazy %s" % acts[-2])
+        callt = "%s %s" % (f, " ".join(acts))
+        for nm, ty in names:
+            if ty.startswith("list"):
+                for i in list(self.elems.get(nm, ())):
+                    self.consts.pop("%s_%d" % (nm, i), None)
+                self.elems[nm] = set()
+            else:
+                self.consts.pop(nm, None)
+        if sig["option"]:
+            self.uses_option = True
+            self.open_matches = getattr(self, "open_matches", 0)
+            txt += "match %s with None => None | Some callres => let %s := callres in\n" % (callt, self.pat(pat))
+            self.pending_close = getattr(self, "pending_close", 0) + 1
+        else:
+            txt += "let %s := %s in\n" % (self.pat(pat), callt)
+        return out + txt
+
+    def close(self, text):
+        """close the `match ... with` opened by option-returning calls hoisted in front of `text`"""
+        n = getattr(self, "pending_close", 0)
+        self.pending_close = 0
+        return text, n
+
+    # ------------------------------------------------------------ statements
+    def S(self, stmts, k):
+        if not stmts:
+            return k()
+        n, rest = stmts[0], stmts[1:]
+        kind = n["kind"]
+        if kind == "GotoStmt":
+            tid = n.get("targetLabelDeclId")
+            for i, s in enumerate(self.top):
+                if s.get("kind") == "LabelStmt" and s.get("declId") == tid:
+                    return self.S(self.top[i:], self.top_k)
+            raise Unsupported("goto to a label that is not at the top level of the function")
+        if kind == "LabelStmt":
+            return self.S(list(n.get("inner", [])) + rest, k)
+        if kind == "DoStmt":
+            body_, cond_ = n["inner"][0], n["inner"][1]
+            if self.has_break(body_) or self.has_continue(body_) or self.C(cond_) != "false":
+                raise Unsupported("do-while that is not `do {...} while (false)`")
+            return self.S([body_] + rest, k)
+        if kind == "DeclStmt" and len(n["inner"]) == 1 and n["inner"][0]["kind"] == "VarDecl":
+            v = n["inner"][0]
+            name = self.rename.get(v["name"], v["name"])
+            if name != v["name"]:
+                v = dict(v)
+                v["name"] = name
+                n = dict(n)
+                n["inner"] = [v]
+                stmts = [n] + rest
+            qt = v.get("type", {}).get("qualType", "")
+            dq = ctype(v)
+            init = [c for c in v.get("inner", []) if c.get("kind") not in ("FullComment",)]
+            if qt in ("gf_poly",) and init and init[0]["kind"] == "InitListExpr":
+                arr = name + "_coeff"
+                self.arr_len[arr] = 16
+                self.elems[arr] = set(range(16))
+                for i in range(16):
+                    self.consts["%s_%d" % (arr, i)] = 0
+                return "let %s : list Z := repeat 0 16 in\n" % arr + self.S(rest, k)
+            if re.match(r"(const )?(struct )?polyseed_data \*$", dq) or "polyseed_data *" in qt:
+                self.struct_ptrs.add(name)
+                if not init:
+                    return self.S(rest, k)
+                pre = self.hoist(init[0])
+                return pre + self.assign((name, None), self.E(init[0])) + self.S(rest, k)
+            m_arr = re.search(r"\[(\d+)\]$", dq.strip())
+            if m_arr and not init and "*" in dq:
+                self.arr_len[name] = int(m_arr.group(1))
+                return "let %s : list Z := repeat 0 %d in\n" % (name, int(m_arr.group(1))) + self.S(rest, k)
+            if self.idx_mode and dq.endswith("char *") and init:
+                i0 = strip(init[0])
+                if i0.get("kind") == "DeclRefExpr":
+                    src = self.lval_name(i0)
+                    if src in self.idx_ptrs:
+                        self.idx_ptrs[name] = self.idx_ptrs[src]
+                        return self.assign((name, None), self.E(i0)) + self.S(rest, k)
+                    self.idx_ptrs[name] = src
+                    self.char_arrays.add(src)
+                    return self.assign((name, None), "0") + self.S(rest, k)
+                if i0.get("kind") == "UnaryOperator" and i0.get("opcode") == "*" and name in self.idx_spec:
+                    self.idx_ptrs[name] = self.idx_spec[name]
+                    self.char_arrays.add(self.idx_spec[name])
+                    return self.assign((name, None), self.E(i0)) + self.S(rest, k)
+                raise Unsupported("char pointer %s initialised from something that is not an array or a pointer into one" % name)
+            if m_arr and not init and "*" not in dq:
+                self.arr_len[name] = int(m_arr.group(1))
+                if dq.startswith("char"):
+                    self.char_arrays.add(name)
+                return "let %s : list Z := repeat 0 %d in\n" % (name, int(m_arr.group(1))) + self.S(rest, k)
+            if m_arr and init and strip(init[0]).get("kind") == "StringLiteral":
+                ln = int(m_arr.group(1))
+                lit_s = strip(init[0])["value"]
+                bs = json.loads(lit_s).encode("latin-1") if lit_s.startswith('"') else lit_s.encode("latin-1")
+                bs = bs + b"\0" * (ln - len(bs))
+                self.arr_len[name] = ln
+                self.elems[name] = set(range(ln))
+                for i in range(ln):
+                    self.consts["%s_%d" % (name, i)] = bs[i]
+                return "let %s : list Z := repeat 0 %d in\n" % (name, ln) + self.S(rest, k)
+            if init:
+                pre = self.hoist(init[0])
+                if pre:
+                    return self.with_hoist(pre, n, rest, k)
+        if kind == "IfStmt":
+            pre = self.hoist(n["inner"][0])
+            if pre:
+                return self.with_hoist(pre, n, rest, k)
+            c = self.C(n["inner"][0])
+            parts = n["inner"]
+            then = parts[1]
+            els = parts[2] if len(parts) > 2 else None
+            if c not in ("true", "false") and (self.has_return(then) or (els is not None and self.has_return(els))):
+                snap = self.snapshot()
+                t = self.S([then] + rest, k)
+                self.restore(snap)
+                e = self.S(([els] if els is not None else []) + rest, k)
+                self.restore(snap)
+                return "if %s then (%s) else (\n%s)" % (c, t, e)
+        if kind == "ReturnStmt" and n.get("inner"):
+            pre = self.hoist(n["inner"][0])
+            if pre:
+                return self.with_hoist(pre, n, rest, k)
+        if kind in ("BinaryOperator", "CompoundAssignOperator") and n.get("opcode", "").endswith("=") and \
+                n["opcode"] not in ("==", "!=", "<=", ">="):
+            pre = self.hoist(n["inner"][1]) + self.hoist(n["inner"][0])
+            if pre:
+                return self.with_hoist(pre, n, rest, k)
+            lhs = strip(n["inner"][0])
+            if lhs.get("kind") == "DeclRefExpr" and lhs["referencedDecl"]["name"] in self.struct_ptrs:
+                return self.assign((lhs["referencedDecl"]["name"], None), self.E(n["inner"][1])) + self.S(rest, k)
+        if kind == "CallExpr":
+            if n.get("id") in self.hoisted:
+                return self.S(rest, k)
+            dm = self.deps_member(n)
+            if dm is None:
+                f = self.lval_name(n["inner"][0])
+                if f == "memcpy" and self.const_of(n["inner"][3]) is None:
+                    dst, src = self.arg_base(n["inner"][1]), self.arg_base(n["inner"][2])
+                    cnt = "(Z.to_nat %s)" % self.E(n["inner"][3])
+                    txt = "let %s : list Z := firstn %s %s ++ skipn %s %s in\n" % (
+                        dst, cnt, self.cur(src, True), cnt, self.cur(dst, True))
+                    self.elems[dst] = set()
+                    return txt + self.S(rest, k)
+                if f in API_INLINE:
+                    return self.inline_api(n, lambda val: self.S(rest, k))
+                pre = self.hoist(n)
+                if pre:
+                    return self.with_hoist(pre, n, rest, k)
+                for a in n["inner"][1:]:
+                    pre += self.hoist(a)
+                if pre:
+                    return self.with_hoist(pre, n, rest, k)
+            else:
+                args = n["inner"][1:]
+                pre = ""
+                for a in args:
+                    pre += self.hoist(a)
+                if pre:
+                    return self.with_hoist(pre, n, rest, k)
+                if dm == "memzero":
+                    a0 = strip(args[0])
+                    if a0.get("kind") == "UnaryOperator" and a0.get("opcode") == "&":
+                        obj = self.lval_name(strip(a0["inner"][0]))
+                        return self.event('CWipe "%s"%%string %s' % (obj, self.E(args[1]))) + self.S(rest, k)
+                    return self.event("CWipeP %s %s" % (self.E(args[0]), self.E(args[1]))) + self.S(rest, k)
+                if dm == "free":
+                    return self.event("CFree %s" % self.E(args[0])) + self.S(rest, k)
+                if dm == "randbytes":
+                    base, off = self.pointee(args[0])
+                    cnt = cval(self.E(args[1]))
+                    if cnt is None:
+                        raise Unsupported("random bytes of a data-dependent size")
+                    self.env("env_rand", "list Z")
+                    out = self.event("CRand %d" % cnt)
+                    for i in range(cnt):
+                        self.elems.setdefault(base, set()).add(off + i)
+                        out += self.assign(("%s_%d" % (base, off + i), None), "((@nth Z %d%%nat env_rand 0) mod 256)" % i)
+                    return out + self.S(rest, k)
+                if dm == "pbkdf2_sha256":
+                    pw = self.cur(self.arg_base(args[0]), True)
+                    salt = self.cur(self.arg_base(args[2]), True)
+                    nums = [self.E(args[i]) for i in (1, 3, 4, 6)]
+                    key = self.arg_base(args[5])
+                    self.env("dep_kdf", "list Z -> Z -> list Z -> Z -> Z -> Z -> list Z")
+                    call = "%s %s %s %s %s %s" % (pw, nums[0], salt, nums[1], nums[2], nums[3])
+                    out = self.event("CKdf " + call)
+                    out += "let %s : list Z := dep_kdf %s in\n" % (key, call)
+                    for i in list(self.elems.get(key, ())):
+                        self.consts.pop("%s_%d" % (key, i), None)
+                    self.elems[key] = set()
+                    return out + self.S(rest, k)
+                raise Unsupported("call of polyseed_deps." + dm)
+        return super().S(stmts, k)
+
+    def with_hoist(self, pre, n, rest, k):
+        """statement n, whose calls were just bound by `pre`; the bindings are forgotten once n is done
+        (the same statement may be translated again: unrolled loops, duplicated continuations)"""
+        ids, self.new_ids = self.new_ids, []
+        ncl = getattr(self, "pending_close", 0)
+        self.pending_close = 0
+        saved = {i: self.hoisted[i] for i in ids if i in self.hoisted}
+
+        def k2():
+            for i in ids:
+                self.hoisted.pop(i, None)
+            return self.S(rest, k)
+        self.hoisted.update(saved)
+        body = self.S([n], k2)
+        for i in ids:
+            self.hoisted.pop(i, None)
+        return pre + body + ("\nend" * ncl)
+
+    def wrap_close(self, pre, cont):
+        ncl = getattr(self, "pending_close", 0)
+        self.pending_close = 0
+        body = cont()
+        return pre + body + ("\nend" * ncl)
+
+    def pointee(self, a):
+        s = strip(a)
+        if s.get("kind") == "UnaryOperator" and s.get("opcode") == "&":
+            inner = strip(s["inner"][0])
+            if inner.get("kind") == "ArraySubscriptExpr":
+                nm = self.lval_name(inner["inner"][0])
+                v = cval(self.E(inner["inner"][1]))
+                if v is None:
+                    raise Unsupported("address of an element at a data-dependent index")
+                self.note_len(nm, inner["inner"][0])
+                return (nm, v)
+            return (self.lval_name(inner), 0)
+        return super().pointee(a)
+
+    def inline_api(self, call, kret):
+        f = self.lval_name(call["inner"][0])
+        node = ast_of(self.repo, API_INLINE[f], f)
+        params = [p for p in node["inner"] if p.get("kind") == "ParmVarDecl"]
+        args = call["inner"][1:]
+        out = ""
+        saved_ptrs = dict(self.ptrs)
+        for p, a in zip(params, args):
+            ty = ctype(p)
+            if "polyseed_data" in ty:
+                self.struct_ptrs.add(p["name"])
+                val = self.E(a)
+                if val != p["name"]:
+                    out += self.assign((p["name"], None), val)
+            elif ty.endswith("*"):
+                self.ptrs[p["name"]] = self.pointee(a)
+            else:
+                out += self.assign((p["name"], None), wrap(self.E(a), ty))
+        body = [c for c in node["inner"] if c.get("kind") == "CompoundStmt"][0]
+        saved_ret = self.ret_hook
+
+        def done(val):
+            self.ret_hook = saved_ret
+            for p in params:
+                if ctype(p).endswith("*") and "polyseed_data" not in ctype(p):
+                    self.ptrs.pop(p["name"], None)
+            for nm, v in saved_ptrs.items():
+                self.ptrs.setdefault(nm, v)
+            return kret(val)
+        self.ret_hook = done
+        return out + self.S([body], lambda: done(None))
+
+    def assigned(self, n, acc):
+        if n.get("kind") == "CallExpr":
+            dm = self.deps_member(n)
+            if dm is not None:
+                acc.add("ev")
+                if dm in ("u8_nfc", "u8_nfkd"):
+                    acc.add(self.arg_base(n["inner"][2]))
+            else:
+                try:
+                    f = self.lval_name(n["inner"][0])
+                except Unsupported:
+                    f = None
+                if f in API_INLINE:
+                    acc.add("ev")
+                if f == "memcpy":
+                    acc.add(self.arg_base(n["inner"][1]))
+                if f in SIGS and f not in EXTERNS and f not in ("memcpy",):
+                    try:
+                        for g in SIGS[f]["outs"]:
+                            acc.add(self.caller_name(g, SIGS[f]["cparams"], n["inner"][1:], SIGS[f])[0])
+                    except (Unsupported, KeyError):
+                        pass
+                    if f == "utf8_nfkd_lazy":
+                        acc.add("ev")
+        return super().assigned(n, acc)
+
+    def dep_call(self, n):
+        return None
+
+    def translate(self, params, outs, rty):
+        body = [c for c in self.node["inner"] if c.get("kind") == "CompoundStmt"][0]
+        self.top = list(body.get("inner", []))
+        self.outs = outs
+        for p in self.node["inner"]:
+            if p.get("kind") == "ParmVarDecl" and ctype(p).endswith("char *"):
+                self.char_ptrs.add(p["name"])
+            if p.get("kind") == "ParmVarDecl" and "polyseed_data" in ctype(p) and ctype(p).count("*") == 1:
+                self.struct_ptrs.add(p["name"])
+        if self.idx_mode:
+            for p in self.node["inner"]:
+                if p.get("kind") != "ParmVarDecl":
+                    continue
+                q = p.get("type", {}).get("qualType", "")
+                if q == "char *":
+                    self.char_ptrs.discard(p["name"])
+                    self.char_arrays.add(p["name"])
+                if q.endswith("**"):
+                    self.str_arrays.discard(p["name"])
+                    if p["name"] in self.idx_spec.get("@scalars", ()):
+                        self.pre_elems = {p["name"]: {0}}
+        names = self.scan_names(self.node, [])
+        prefixes = [nm for nm, ty in names if "polyseed_data" in ty or "gf_poly" in ty]
+        for nm, ty in names:
+            if any(nm == p + "_" + fld for p in prefixes for fld in ("birthday", "features", "secret", "checksum", "coeff")):
+                self.rename[nm] = nm + "_loc"
+        text = None
+        self.uses_option_final = False
+        for _pass in (0, 1):
+            self.uses_option = False
+            self.consts, self.elems, self.ptrs = {}, {a: set(b) for a, b in getattr(self, "pre_elems", {}).items()}, {}
+            self.idx_ptrs, self.idx_arrays = {}, {}
+            self.hoisted = {}
+            self.tmpn = 0
+            self.asserts = []
+            self.pending_close = 0
+            self.arr_len = dict(getattr(self, "arr_len0", {}))
+            self.top_k = lambda: self.ret(None)
+            text = self.S([body], self.top_k)
+            self.uses_option_final = self.uses_option
+        if self.uses_option_final:
+            rty = "option (%s)" % rty
+        extra = []
+        if self.uses_fuel:
+            extra.append(("fuel", "nat"))
+        if "(rdc sgn " in text or getattr(self, "needs_sgn", False):
+            extra.append(("sgn", "bool"))
+        for dn in sorted(self.deps_used):
+            extra.append(("dep_" + dn, "list Z -> list Z * Z"))
+        for (gname, gty) in self.exts_used:
+            extra.append((gname, gty))
+        for (gname, gty) in self.env_used:
+            extra.append((gname, gty))
+        self.extra_params = [p[0] for p in extra]
+        self.extra_ty = dict(extra)
+        head = "let ev : list cev := [] in\n"
+        return "Definition %s %s : %s :=\n%s%s." % (self.name, " ".join("(%s : %s)" % p for p in extra + params), rty, head, text)
+
+
+API_PRELUDE = """(* GENERATED by tools/c2coq.py from /repo's current src/polyseed.c - do not edit *)
+From Coq Require Import ZArith List Bool String.
+From PS.Gen Require Import Consts PrivConsts CFuns.
+Import ListNotations.
+Local Open Scope Z_scope.
+
+(* calls made through the dependency table, in program order, with the arguments the code computed *)
+Inductive cev :=
+| CAlloc (n res : Z)
+| CFree (p : Z)
+| CWipe (obj : string) (len : Z)
+| CWipeP (p len : Z)
+| CRand (n : Z)
+| CTime
+| CKdf (pw : list Z) (pwlen : Z) (salt : list Z) (saltlen iters keylen : Z)
+| CNfc (s : list Z)
+| CNfkdLazy (s : list Z).
+
+(* the C string a `char*` designates: the bytes from there up to the terminator *)
+Fixpoint cstr (s : list Z) : list Z :=
+  match s with
+  | [] => []
+  | b :: t => if b =? 0 then [] else b :: cstr t
+  end.
+Definition cstr_at (buf : list Z) (off : Z) : list Z := cstr (skipn (Z.to_nat off) buf).
+"""
+
+DATA = [("%s_birthday", "Z"), ("%s_features", "Z"), ("%s_secret", "list Z"), ("%s_checksum", "Z")]
+
+
+def data_params(p):
+    return [(a % p, t) for a, t in DATA]
+
+
+# (file, function, parameters, results besides the return value, globals, result type)
+API_TARGETS = [
+    ("gf.c", "gf_poly_check", [("polyseed_mul2_table", "list Z"), ("message_coeff", "list Z")], [], ["polyseed_mul2_table"], "Z"),
+    ("gf.c", "gf_poly_encode", [("polyseed_mul2_table", "list Z"), ("message_coeff", "list Z")], ["message_coeff"], ["polyseed_mul2_table"], "list Z"),
+    ("polyseed.c", "polyseed_free", [("seed", "Z")], ["ev"], [], "list cev"),
+    ("polyseed.c", "polyseed_get_birthday", data_params("data"), [], [], "Z"),
+    ("polyseed.c", "polyseed_get_feature", data_params("seed") + [("mask", "Z")], [], [], "Z"),
+    ("polyseed.c", "polyseed_is_encrypted", data_params("seed"), [], [], "Z"),
+    ("polyseed.c", "polyseed_store", data_params("seed") + [("storage", "list Z")], ["storage"], [], "list Z"),
+    ("polyseed.c", "polyseed_load",
+     [("polyseed_mul2_table", "list Z"), ("reserved_features", "Z"), ("storage", "list Z")] + data_params("seed") + [("seed_out_0", "Z")],
+     ["ev"] + [a for a, _ in data_params("seed")] + ["seed_out_0"], ["polyseed_mul2_table", "reserved_features"],
+     "list cev * Z * Z * list Z * Z * Z * Z"),
+    ("polyseed.c", "polyseed_create",
+     [("polyseed_mul2_table", "list Z"), ("reserved_features", "Z"), ("features", "Z")] + data_params("seed") + [("seed_out_0", "Z")],
+     ["ev"] + [a for a, _ in data_params("seed")] + ["seed_out_0"], ["polyseed_mul2_table", "reserved_features"],
+     "list cev * Z * Z * list Z * Z * Z * Z"),
+    ("polyseed.c", "polyseed_keygen", data_params("seed") + [("coin", "Z"), ("key_size", "Z"), ("key_out", "list Z")],
+     ["ev", "key_out"], [], "list cev * list Z"),
+    ("polyseed.c", "polyseed_crypt",
+     [("polyseed_mul2_table", "list Z")] + data_params("seed") + [("password", "list Z")],
+     ["ev"] + [a for a, _ in data_params("seed")], ["polyseed_mul2_table"], "list cev * Z * Z * list Z * Z"),
+]
+
+
+API_TARGETS += [
+    ("polyseed.c", "str_split", [("str", "list Z"), ("words", "list Z")], ["str", "words"], [], "list Z * list Z * Z"),
+    ("polyseed.c", "polyseed_decode",
+     [("polyseed_mul2_table", "list Z"), ("reserved_features", "Z"), ("str", "list Z"), ("coin", "Z"),
+      ("lang_out", "Z"), ("lang_out_0", "Z")] + data_params("seed") + [("seed_out_0", "Z")],
+     ["ev", "lang_out_0"] + [a for a, _ in data_params("seed")] + ["seed_out_0"], ["polyseed_mul2_table", "reserved_features"],
+     "list cev * Z * Z * Z * list Z * Z * Z * Z"),
+    ("polyseed.c", "polyseed_decode_explicit",
+     [("polyseed_mul2_table", "list Z"), ("reserved_features", "Z"), ("str", "list Z"), ("coin", "Z"),
+      ("lang", "Z")] + data_params("seed") + [("seed_out_0", "Z")],
+     ["ev"] + [a for a, _ in data_params("seed")] + ["seed_out_0"], ["polyseed_mul2_table", "reserved_features"],
+     "list cev * Z * Z * list Z * Z * Z * Z"),
+    ("polyseed.c", "write_str", [("buf", "list Z"), ("pos_0", "Z"), ("str", "list Z")], ["buf", "pos_0"], [], "list Z * Z"),
+    ("polyseed.c", "polyseed_encode",
+     data_params("data") + [("lang", "Z"), ("coin", "Z"), ("str_out", "list Z")], ["ev", "str_out"], [],
+     "list cev * list Z * Z"),
+]
+IDX_MODE = {"str_split": {}, "write_str": {"loc": "buf", "@scalars": ("pos",)}, "polyseed_encode": {}}
+SIG_EXTRA = {"str_split": {"idx_out": {"words": "str"}}, "write_str": {"implicit": {"buf": "pos"}}}
+
+
+def api_main(repo, out, base_info):
+    parts = [API_PRELUDE]
+    status = {}
+    known = {}
+    for src, fn, params, outs, gl, rty in API_TARGETS:
+        try:
+            node = ast_of(repo, src, fn)
+            f = ApiFn(fn, node, gl, known)
+            f.repo = repo
+            f.arr_len0 = dict(ARRAY_LEN.get(fn, {}))
+            if fn in IDX_MODE:
+                f.idx_mode = True
+                f.idx_spec = IDX_MODE[fn]
+            text = f.translate(params, outs, rty)
+            parts.append(text)
+            register_sig(repo, src, fn, f, params, outs, gl, rty)
+            SIGS[fn].update(SIG_EXTRA.get(fn, {}))
+            known[fn] = list(f.extra_params) + gl
+            status[fn] = "ok" + (" (asserts: %s)" % ", ".join(f.asserts) if f.asserts else "")
+        except Unsupported as e:
+            parts.append("(* %s: NOT TRANSLATED: %s *)" % (fn, e))
+            status[fn] = "unsupported: %s" % e
+        except Exception as e:   # noqa
+            import traceback
+            parts.append("(* %s: NOT TRANSLATED: %r *)" % (fn, e))
+            status[fn] = "error: %r %s" % (e, traceback.format_exc()[-300:])
+    new = "\n\n".join(parts) + "\n"
+    try:
+        old = open(out).read()
+    except OSError:
+        old = None
+    if old != new:
+        open(out, "w").write(new)
+    return status
+
+
+def register_sig(repo, src, fn, f, params, outs, gl, rty):
+    node = f.node
+    cps = [(p["name"], ctype(p)) for p in node["inner"] if p.get("kind") == "ParmVarDecl"]
+    fty = node.get("type", {}).get("qualType", "")
+    extra = list(getattr(f, "extra_params", []))
+    ety = getattr(f, "extra_ty", None)
+    if ety is None:
+        ety = {}
+        for x in extra:
+            ety[x] = {"fuel": "nat", "sgn": "bool"}.get(x, "list Z -> list Z * Z" if x.startswith("dep_") else dict(f.exts_used).get(x, "Z"))
+    SIGS[fn] = dict(extra=extra, extra_ty=ety, globals=list(gl), params=list(params), outs=list(outs),
+                    option=bool(f.uses_option_final), cparams=cps, void=fty.startswith("void "))
+
+
 PRELUDE = """(* GENERATED by tools/c2coq.py from /repo's current sources - do not edit *)
 From Coq Require Import ZArith List Bool.
 Import ListNotations.
@@ -1188,6 +2004,7 @@ def main():
                 pass
             parts.append(text)
             known[fn] = list(getattr(f, "extra_params", [])) + gl
+            register_sig(repo, src, fn, f, params, outs, gl, rty)
             status[fn] = "ok" + (" (asserts: %s)" % ", ".join(f.asserts) if f.asserts else "")
         except Unsupported as e:
             parts.append("(* %s: NOT TRANSLATED: %s *)" % (fn, e))
@@ -1228,6 +2045,11 @@ def main():
         old = None
     if old != new:
         open(out, "w").write(new)
+    import os
+    try:
+        status.update(api_main(repo, os.path.join(os.path.dirname(out), "CApi.v"), status))
+    except Exception as e:   # noqa
+        status["api"] = "error: %r" % e
     json.dump(status, sys.stdout)
 
 
